@@ -293,6 +293,23 @@ package bebop
 //@ func evaluateBitflagExprUnsigned
 //@   modifies fresh(), any(string), alloc()
 
+// Small helpers of the parser: verified for absence of panics. The two comment readers slice the token text and
+// rely on the shape of comment tokens (wfKC), which their callers must establish from the token kind.
+//@ func readBlockComment
+//@   requires len(tk.concrete) >= 4
+//@   modifies fresh(), any(string), alloc()
+//@ func sanitizeComment
+//@   requires len(tk.concrete) >= 2
+//@   modifies fresh(), any(string), alloc()
+//@ func bytesToOpCode
+//@   modifies nothing
+//@ func parseCommentTag
+//@   modifies fresh(), any(string), alloc()
+//@ func isHex
+//@   modifies nothing
+//@ func isNumeric
+//@   modifies nothing
+
 //@ func readError
 //@   ensures result != nil
 //@   modifies fresh(), any(string), alloc()
